@@ -177,7 +177,58 @@ func Entails(F, G *Formula) bool {
 		ks = append(ks, k)
 	}
 	if len(ks) > 18 {
-		return false
+		// too many atoms for the truth table: keep only the top-level conjuncts of F that are connected to G's atoms (a weaker
+		// premise, so a positive answer stays sound), growing the set until the atom budget is used up
+		if G.Kind == FFalse || G.Kind == FTrue {
+			return false
+		}
+		conj := flattenAnd(F)
+		if len(conj) < 2 {
+			return false
+		}
+		rel := map[string]*Formula{}
+		G.atoms(rel)
+		used := make([]bool, len(conj))
+		var keep []*Formula
+		for changed := true; changed; {
+			changed = false
+			for i, c := range conj {
+				if used[i] {
+					continue
+				}
+				ca := map[string]*Formula{}
+				c.atoms(ca)
+				share := false
+				for k := range ca {
+					if _, ok := rel[k]; ok {
+						share = true
+						break
+					}
+				}
+				if !share {
+					continue
+				}
+				extra := 0
+				for k := range ca {
+					if _, ok := rel[k]; !ok {
+						extra++
+					}
+				}
+				if len(rel)+extra > 18 {
+					continue
+				}
+				used[i] = true
+				keep = append(keep, c)
+				for k, v := range ca {
+					rel[k] = v
+				}
+				changed = true
+			}
+		}
+		if len(keep) == 0 || len(keep) == len(conj) {
+			return false
+		}
+		return Entails(fAnd(keep...), G)
 	}
 	sort.Strings(ks)
 	a := map[string]bool{}
@@ -193,6 +244,21 @@ func Entails(F, G *Formula) bool {
 }
 
 // Satisfiable reports whether some assignment makes F true.
+// flattenAnd lists the top-level conjuncts of F.
+func flattenAnd(F *Formula) []*Formula {
+	if F == nil {
+		return nil
+	}
+	if F.Kind == FAnd {
+		var out []*Formula
+		for _, s := range F.Sub {
+			out = append(out, flattenAnd(s)...)
+		}
+		return out
+	}
+	return []*Formula{F}
+}
+
 func Satisfiable(F *Formula) bool { return !Entails(F, fFalse) }
 
 // ---------------------------------------------------------------------------------------------
@@ -205,6 +271,12 @@ type Facts struct {
 	memo map[*ssa.BasicBlock]*Formula
 	// NoExpand disables predicate expansion (atoms stay as calls).
 	NoExpand bool
+	// ErrExpand decides how `h(args).err == nil` of a transparent helper is rendered: 0 atom ∧ expansion (default),
+	// 1 atom only, 2 expansion only.
+	ErrExpand func(atom *Formula) int
+	// axioms: atom string -> expansion S with the knowledge atom ⇔ S (recorded when a helper's `err == nil` is met in default mode)
+	axioms map[string]*Formula
+	axAtom map[string]*Formula
 }
 
 func NewFacts(p *Prog, fn *ssa.Function, o *Origin) *Facts {
@@ -273,6 +345,17 @@ func (fa *Facts) At(b *ssa.BasicBlock) *Formula {
 		r = fOr(disj...)
 	}
 	f := fAnd(base, r)
+	// knowledge about transparent helpers whose result is tested on the way here: atom ⇔ expansion
+	if len(fa.axioms) > 0 {
+		have := map[string]*Formula{}
+		f.atoms(have)
+		for k := range have {
+			if S, ok := fa.axioms[k]; ok {
+				a := fa.axAtom[k]
+				f = fAnd(f, fOr(fNot(a), S), fOr(a, fNot(S)))
+			}
+		}
+	}
 	fa.memo[b] = f
 	return f
 }
@@ -341,6 +424,44 @@ func (fa *Facts) valueFormula(v ssa.Value, o *Origin, path []*ssa.BasicBlock, de
 		}
 	case *ssa.BinOp:
 		a, b := o.Of(x.X), o.Of(x.Y)
+		if (x.Op == token.EQL || x.Op == token.NEQ) && !fa.NoExpand && depth < 4 {
+			// err == nil / err != nil of a transparent helper call: expand into the helper's success condition
+			var ev ssa.Value
+			if isNilConst(x.Y) {
+				ev = x.X
+			} else if isNilConst(x.X) {
+				ev = x.Y
+			}
+			if ev != nil {
+				if hc, g, ok := fa.errOfHelperCall(ev); ok && (hc.Parent() == o.fn) {
+					if f := fa.errorSummary(g, hc, o, depth); f != nil && len(f.Atoms()) <= 8 {
+						// the atom itself stays (rules match on it); its expansion is added as an equivalent conjunct
+						// default: the condition is the atom itself (both branches keep its exact polarity) and atom ⇔ expansion is
+						// recorded as an axiom that At() conjoins; mode 1: atom only; mode 2: the expansion replaces the atom
+						atom := cmpAtom("==", a, b)
+						pos := atom
+						mode := 0
+						if fa.ErrExpand != nil {
+							mode = fa.ErrExpand(atom)
+						}
+						switch mode {
+						case 0:
+							if fa.axioms == nil {
+								fa.axioms, fa.axAtom = map[string]*Formula{}, map[string]*Formula{}
+							}
+							fa.axioms[atom.Atom] = f
+							fa.axAtom[atom.Atom] = atom
+						case 2:
+							pos = f
+						}
+						if x.Op == token.EQL {
+							return pos
+						}
+						return fNot(pos)
+					}
+				}
+			}
+		}
 		switch x.Op {
 		case token.EQL:
 			return cmpAtom("==", a, b)
